@@ -1,13 +1,17 @@
 //! One module per claimed property.
 use crate::prop::Prop;
 
+pub mod c06;
 pub mod c07;
+pub mod c08;
 pub mod c13;
 pub mod c14;
 pub mod c15;
+pub mod c16;
+pub mod c18;
 
 pub fn all() -> Vec<&'static dyn Prop> {
-    vec![&c07::C07, &c13::C13, &c14::C14, &c15::C15]
+    vec![&c06::C06, &c07::C07, &c08::C08, &c13::C13, &c14::C14, &c15::C15, &c16::C16, &c18::C18]
 }
 
 pub fn get(id: &str) -> Option<&'static dyn Prop> {
